@@ -799,7 +799,7 @@ fn explore_guarded(ctx: &mut Ctx, n: usize, pool_max: usize, big: bool) {
 }
 
 pub fn def(tier: Tier) -> CheckDef {
-    let (n, pool) = tier.pick((8usize, 2usize), (8usize, 3usize));
+    let (n, pool) = tier.pick((8usize, 2usize), (10usize, 3usize));
     let (ng, poolg) = (8usize, 2usize); // cheap: thorough bound in both tiers
     def_sized(n, pool, ng, poolg)
 }
